@@ -204,6 +204,23 @@ Example C16_local_round_trip_all_instants_nonvacuous :
   of_local overlap_demo (to_local overlap_demo 990000) = 990000.
 Proof. exact overlap_demo_facts. Qed.
 
+(* EVERY wall-clock reading l, also those no instant shows (gaps), any well-formed table: localtime2sec's zone resolution
+   answers l minus an offset of the table; the answer is a genuine preimage whenever ANY instant shows l; otherwise NO instant
+   shows l (gap) and the answer shows l shifted by the difference of two offsets of the table *)
+Theorem C16_local_resolution_every_reading :
+  forall z l, wf_ztable z = true ->
+  let r := of_local z l in
+  (exists u, r = l - offset_at z u /\ to_local z r = l + (offset_at z r - offset_at z u)) /\
+  (to_local z r = l \/ forall t, ALPHA + ZD <= t -> t <= OMEGA - ZD -> to_local z t <> l).
+Proof. exact of_local_dichotomy. Qed.
+Print Assumptions C16_local_resolution_every_reading.
+
+Example C16_local_resolution_every_reading_nonvacuous :
+  wf_ztable gap_demo = true /\
+  of_local gap_demo 1005400 = 1005400 - 3600 /\ to_local gap_demo (of_local gap_demo 1005400) = 1005400 + 3600 /\
+  to_local gap_demo 999999 = 1003599 /\ to_local gap_demo 1000000 = 1007200.
+Proof. exact gap_demo_facts. Qed.
+
 (* gmt2nsec returns int64 nanoseconds: exact whenever n * 10^9 fits in int64 (1677-09-21 .. 2262-04-11) *)
 Theorem C16_gmt2nsec_sec2gmt :
   forall n, LO <= n <= HI -> MIN64 <= n * 1000000000 <= MAX64 -> gmt2nsec (sec2gmt_int n 0) = POk (n * 1000000000).
